@@ -2,6 +2,10 @@
 //
 //	-prop C03  lock-wait: a lookup that has to WAIT for the entry's lock (a slow store on the same shard holds it) and whose
 //	           entry expires during the wait must report the entry stale (the clock is read when the entry is examined).
+//	-prop C13  overwrite-window: while a store OVERWRITES a key (cache below its limit before and after), a store of
+//	           another key lands between the two counter updates: nothing may be evicted.
+//	-prop C12  evict-during-overwrite: an eviction candidate is overwritten with another length between the eviction's
+//	           scan and its removal loop: afterwards the byte counter and the bytes metric equal what is stored.
 //	-prop C06  update-during-store: a metadata update (what a 304 does) issued while a full store of the same key is
 //	           downloading must apply to the entry that store puts in place — afterwards the key holds the NEW body
 //	           with the NEW object metadata.
@@ -21,6 +25,8 @@ import (
 
 	"reservoir/cache"
 	"reservoir/config"
+	"reservoir/metrics"
+	"reservoir/utils/bytesize"
 )
 
 var (
@@ -48,12 +54,142 @@ type failure struct {
 }
 
 func newCache(backend string, cfg *config.Config, shards int, ctx context.Context, dir string) hooks {
+	return newCacheLimit(backend, cfg, shards, ctx, dir, 1<<30)
+}
+
+func newCacheLimit(backend string, cfg *config.Config, shards int, ctx context.Context, dir string, limit int64) hooks {
+	cfg.Cache.MaxCacheSize.Overwrite(bytesize.ByteSize(limit))
 	if backend == "memory" {
-		c := cache.NewMemoryCache[meta](cfg, 50, 1<<30, time.Hour, shards, ctx)
+		c := cache.NewMemoryCache[meta](cfg, 50, limit, time.Hour, shards, ctx)
 		c.VerifSetMemoryCap(1 << 40)
 		return c
 	}
-	return cache.NewFileCache[meta](cfg, dir, 1<<30, time.Hour, shards, ctx)
+	return cache.NewFileCache[meta](cfg, dir, limit, time.Hour, shards, ctx)
+}
+
+func put(c hooks, k cache.CacheKey, n int, v int) error {
+	e, err := c.Cache(k, bytes.NewReader(bytes.Repeat([]byte{byte('a' + v%26)}, n)), time.Now().Add(time.Hour), meta{v, fmt.Sprintf("v%d", v)})
+	if err == nil && e.Data != nil {
+		e.Data.Close()
+	}
+	return err
+}
+
+func has(c hooks, k cache.CacheKey) bool {
+	for _, h := range c.VerifKeys() {
+		if h == k.Hex {
+			return true
+		}
+	}
+	return false
+}
+
+// otherShard: a key that lives on another lock shard than k
+func otherShard(c hooks, k cache.CacheKey, name string) (cache.CacheKey, bool) {
+	for i := 0; i < 500; i++ {
+		o := cache.FromString(fmt.Sprintf("%s-%d", name, i))
+		if c.VerifShardOf(o.Hex) != c.VerifShardOf(k.Hex) {
+			return o, true
+		}
+	}
+	return cache.CacheKey{}, false
+}
+
+func overwriteWindow(backend string, shards int, dir string) []failure {
+	var fs []failure
+	if shards == 1 {
+		return fs // the second store would need the shard lock the interrupted one holds
+	}
+	cfg := config.NewDefault()
+	ctx, cancel := context.WithCancel(context.Background())
+	defer cancel()
+	c := newCacheLimit(backend, cfg, shards, ctx, dir, 1000)
+	defer c.Destroy()
+	kx := cache.FromString("overwritten-key")
+	old1, ok1 := otherShard(c, kx, "old-one")
+	old2, ok2 := otherShard(c, kx, "old-two")
+	ky, ok3 := otherShard(c, kx, "other-key")
+	if !ok1 || !ok2 || !ok3 {
+		return fs
+	}
+	put(c, old1, 300, 1)
+	put(c, old2, 300, 2)
+	put(c, kx, 200, 3)
+	base := time.Now()
+	c.VerifSetLastAccess(old1.Hex, base.Add(-3*time.Second))
+	c.VerifSetLastAccess(old2.Hex, base.Add(-2*time.Second))
+	fired := false
+	cache.VerifSetYield(func(point string) {
+		if point == "counter.betweenHalves" && !fired {
+			fired = true
+			cache.VerifSetYield(nil)
+			put(c, ky, 50, 4) // a store of another key while kx is being overwritten (800 -> 850 bytes held)
+		}
+	})
+	put(c, kx, 250, 5)
+	cache.VerifSetYield(nil)
+	if !fired {
+		return []failure{{"overwrite-window", backend, shards, "yield point counter.betweenHalves was never reached (hook removed?)"}}
+	}
+	if !has(c, old1) || !has(c, old2) {
+		fs = append(fs, failure{"overwrite-window", backend, shards, fmt.Sprintf("limit 1000, 800 bytes held, one key overwritten (200 -> 250 bytes) while another 50-byte key was stored: the cache was below its limit throughout, yet least-recently-used entries were evicted (old1 present=%v, old2 present=%v, size now %d)", has(c, old1), has(c, old2), c.VerifByteSize())})
+	}
+	return fs
+}
+
+type onRecord struct {
+	msg string
+	f   func()
+}
+
+func (h *onRecord) Enabled(context.Context, slog.Level) bool { return true }
+func (h *onRecord) Handle(_ context.Context, r slog.Record) error {
+	if r.Message == h.msg && h.f != nil {
+		f := h.f
+		h.f = nil
+		f()
+	}
+	return nil
+}
+func (h *onRecord) WithAttrs([]slog.Attr) slog.Handler { return h }
+func (h *onRecord) WithGroup(string) slog.Handler      { return h }
+
+func evictDuringOverwrite(backend string, shards int, dir string) ([]failure, bool) {
+	var fs []failure
+	cfg := config.NewDefault()
+	ctx, cancel := context.WithCancel(context.Background())
+	defer cancel()
+	metrics.Global.Cache.BytesCached.Set(0)
+	metrics.Global.Cache.CacheEntries.Set(0)
+	c := newCacheLimit(backend, cfg, shards, ctx, dir, 1<<30)
+	defer c.Destroy()
+	k1, k2, k3 := cache.FromString("evict-k1"), cache.FromString("evict-k2"), cache.FromString("evict-k3")
+	put(c, k1, 100, 1)
+	put(c, k2, 100, 2)
+	put(c, k3, 100, 3)
+	base := time.Now()
+	c.VerifSetLastAccess(k1.Hex, base.Add(-30*time.Second))
+	c.VerifSetLastAccess(k2.Hex, base.Add(-20*time.Second))
+	c.VerifSetLastAccess(k3.Hex, base.Add(-10*time.Second))
+	fired := false
+	// the janitor reports its target between the scan and the removal loop: the overwrite lands exactly there
+	slog.SetDefault(slog.New(&onRecord{msg: "Target size for eviction", f: func() { fired = true; put(c, k1, 300, 9) }}))
+	c.VerifEvict(250)
+	slog.SetDefault(slog.New(slog.NewTextHandler(io.Discard, nil)))
+	if !fired {
+		return nil, false // the log record the schedule hangs on is gone: nothing forced, nothing claimed
+	}
+	var stored int64
+	for _, hx := range c.VerifKeys() {
+		if sz, _, _, _, ok := c.VerifMeta(hx); ok {
+			stored += sz
+		}
+	}
+	bs, metric := c.VerifByteSize(), metrics.Global.Cache.BytesCached.Get()
+	if bs != stored || metric != bs {
+		fs = append(fs, failure{"evict-during-overwrite", backend, shards, fmt.Sprintf("an eviction candidate (100 bytes) was overwritten with 300 bytes between the eviction's scan and its removal: afterwards %d bytes are stored in %d entries, the byte counter says %d and the bytes metric %d", stored, len(c.VerifKeys()), bs, metric)})
+	}
+	return fs, true
 }
 
 // slow: a reader that signals its first Read and then delivers its data over `total`
@@ -189,6 +325,15 @@ func main() {
 		for _, shards := range []int{1, 8} {
 			dir := filepath.Join(*flagOut, fmt.Sprintf("c-%s-%d", backend, shards))
 			switch *flagProp {
+			case "C13":
+				failures = append(failures, overwriteWindow(backend, shards, dir)...)
+				dist["overwrite-window/"+backend]++
+				total++
+			case "C12":
+				f, forced := evictDuringOverwrite(backend, shards, dir)
+				failures = append(failures, f...)
+				dist[fmt.Sprintf("evict-during-overwrite/%s/forced=%v", backend, forced)]++
+				total++
 			case "C03":
 				failures = append(failures, lockWait(backend, shards, dir)...)
 				dist["lock-wait/"+backend] += 2
@@ -203,7 +348,7 @@ func main() {
 	}
 	out := map[string]any{
 		"harness": "cachesched/" + *flagProp, "seed": *flagSeed, "tier": *flagTier, "total": total, "distinct": total, "distinct_nontrivial": total,
-		"rule":         "forced schedules at the cache API, both backends, 1 and 8 lock shards: C03 lock-wait (Get / GetMetadata wait 400 ms for the entry's lock while the entry's 150 ms lifetime ends: must report stale); C06 update-during-store (UpdateMetadata issued while a full store of the same key is downloading: afterwards the key holds the new body with the new object metadata)",
+		"rule":         "forced schedules at the cache API, both backends, 1 and 8 lock shards: C03 lock-wait (Get / GetMetadata wait 400 ms for the entry's lock while the entry's 150 ms lifetime ends: must report stale); C13 overwrite-window (a store of another key between the two counter updates of an overwriting store, cache below its limit throughout: nothing evicted); C12 evict-during-overwrite (an eviction candidate overwritten with another length between scan and removal: counters equal what is stored); C06 update-during-store (UpdateMetadata issued while a full store of the same key is downloading: afterwards the key holds the new body with the new object metadata)",
 		"distribution": map[string]any{"scenario": dist},
 		"samples":      []any{map[string]any{"backend": "file", "shards": 1}},
 		"files":        []string{}, "readable": []any{},
